@@ -53,7 +53,7 @@ func Parse(str string) (Selector, error) {
 			if len(sel) > 0 && sel[len(sel)-1].Identity() {
 				return nil, newParseError("selector contains unsupported recursive descent segment: '..'", str, col, tok)
 			}
-			sel = append(sel, segment{str: ".", identity: true})
+			sel = append(sel, segment{str: tok, identity: true, optional: opt})
 
 		case seg == "[]":
 			sel = append(sel, segment{str: tok, optional: opt, iterator: true})
@@ -74,8 +74,12 @@ func Parse(str string) (Selector, error) {
 				sel = append(sel, segment{str: tok, optional: opt, index: idx})
 
 			// explicit field, ["abcd"]
-			case strings.HasPrefix(lookup, "\"") && strings.HasSuffix(lookup, "\""):
+			case len(lookup) >= 2 && strings.HasPrefix(lookup, "\"") && strings.HasSuffix(lookup, "\""):
 				fieldName := lookup[1 : len(lookup)-1]
+				if fieldName == "" {
+					// an empty name can't be told apart from "no field" by the resolver
+					return nil, newParseError(fmt.Sprintf("invalid segment: %s", seg), str, col, tok)
+				}
 				if strings.Contains(fieldName, ":") {
 					return nil, newParseError(fmt.Sprintf("invalid segment: %s", seg), str, col, tok)
 				}
@@ -166,7 +170,8 @@ func tokenize(str string) []string {
 		col++
 	}
 
-	if ofs < col && ctx != "\"" {
+	// an unterminated quote leaves a malformed last token, that the parser rejects
+	if ofs < col {
 		toks = append(toks, str[ofs:col])
 	}
 
